@@ -16,6 +16,7 @@ RULE = ('every opcode cell of the 1-byte, 0F, 0F38 and 0F3A maps x all 256 ModRM
         'strings that miasmX and objdump both accept as one instruction without superfluous prefixes. A case = the byte string; non-trivial = '
         'both decoders accept; classes = (opcode cell, prefix, mod).')
 RULE += " Round 6: a 'stringops' shard puts the string instructions and the other prefix-sensitive one-byte opcodes under every ordered pair and some triples of rep / operand-size / address-size / segment prefixes; where GNU as cannot read a rendering, the repeat prefix is compared as well wherever IA-32 gives it a meaning (f3 on every string instruction, f2 on cmps/scas)."
+RULE += ' Round 7: all 256 immediates on shift / rotate / double-shift / bit-test / MMX-shift / aam-aad forms (count grid).'
 ASSUMPTIONS = ['GNU binutils 2.40 (objdump -M intel, as --32) is the reading of IA-32 bytes and Intel text; LLVM 14 llvm-objdump is the tie-breaker: '
                'when it disagrees with objdump about the length the case is a reference disagreement, not a violation',
                'a rendering GNU as cannot read is undecided here (C09 judges readability)']
